@@ -105,6 +105,16 @@ func Container(cs []model.Comp) (*psatoken.SwComponents[*psatoken.SwComponent], 
 	if len(cs) == 0 {
 		return ct, nil
 	}
+	// well-formed components go in through Add (no decoder involved); only
+	// lists with a malformed component need the unmarshal route
+	vals := make([]psatoken.ISwComponent, len(cs))
+	for i := range cs {
+		vals[i] = RealComp(&cs[i])
+	}
+	if err := ct.Add(vals...); err == nil {
+		return ct, nil
+	}
+	ct = &psatoken.SwComponents[*psatoken.SwComponent]{}
 	if err := ct.UnmarshalCBOR(refcbor.Encode(model.CompsNode(cs))); err != nil {
 		return nil, fmt.Errorf("container build: %w", err)
 	}
